@@ -4,7 +4,7 @@ CONSTANTS
   Rejected <- RejectedAll
   TruncPoints <- TruncClasses
   Spellings = {"rel", "abs", "gofile", "both"}
-  Cwds = {"pkg", "root", "sibling"}
+  Cwds = {"pkg", "root", "sibling", "outside"}
   RecordHist = TRUE
   MaxHist = 14
   FlagSets <- AllFlags
